@@ -9,7 +9,7 @@ import (
 // C07 — operation options: safe is pure, unsafe/reuse/incr write only their destination.
 // C11 — elementwise comparisons.  C12 — unary maths (Apply is in c12apply_test.go).
 
-var dstLayoutKinds = []string{"contig", "leadsliced", "leadsliced", "sliced", "stepsliced"}
+var dstLayoutKinds = []string{"contig", "leadsliced", "leadsliced", "sliced", "stepsliced", "lazyT"}
 
 func genDst(rt *rapid.T, shape []int, d DT, label string) *Opnd {
 	lo, hi := valueRange(d)
